@@ -407,7 +407,7 @@ func runScript(out *hx.Out, sc script, origin string) {
 		opsCoq[i] = sc.Ops[i].coq()
 		obsCoq[i] = obs[i].coq()
 	}
-	coq := fmt.Sprintf("{| c_stack := %s; c_repo := %s; c_hash := %s; c_ops := %s; c_obs := %s; c_stored := %s |}",
+	coq := fmt.Sprintf("KScript {| c_stack := %s; c_repo := %s; c_hash := %s; c_ops := %s; c_obs := %s; c_stored := %s |}",
 		stackCoq[sc.Stack], hx.B(sc.Repo), hx.List(hashCoq), hx.List(opsCoq), hx.List(obsCoq), hx.List(storedCoq))
 	shape := sc.Shape
 	if shape == "" {
@@ -794,17 +794,31 @@ func main() {
 		if err != nil {
 			panic(err)
 		}
-		var sc script
-		if err := json.Unmarshal(b, &sc); err != nil {
-			panic(err)
+		var cd struct {
+			Codec *codecDesc `json:"codec"`
 		}
-		runScript(out, sc, "replay")
+		if json.Unmarshal(b, &cd) == nil && cd.Codec != nil {
+			runCodec(out, *cd.Codec, "replay")
+		} else {
+			var sc script
+			if err := json.Unmarshal(b, &sc); err != nil {
+				panic(err)
+			}
+			runScript(out, sc, "replay")
+		}
 		if err := out.Flush(); err != nil {
 			panic(err)
 		}
 		return
 	}
 	for _, raw := range hx.LoadCorpus(cfg.Corpus) {
+		var cd struct {
+			Codec *codecDesc `json:"codec"`
+		}
+		if json.Unmarshal(raw, &cd) == nil && cd.Codec != nil {
+			runCodec(out, *cd.Codec, "corpus")
+			continue
+		}
 		var sc script
 		if json.Unmarshal(raw, &sc) == nil && len(sc.Ops) > 0 {
 			if sc.Stack == "*" {
@@ -818,6 +832,7 @@ func main() {
 		}
 	}
 	rnd := cfg.Rand()
+	genCodec(out, rnd, cfg.Thorough())
 	if cfg.Thorough() {
 		enumerate(out, 5, []int{0, 1}, stacks)
 	} else {
